@@ -294,7 +294,9 @@ def run_case(case: dict, ctx: Ctx) -> None:
     amp = float(10.0 ** rng.choice([0, 0, 2, -4, -8, -11]))
     G[:dim, :dim] = rng.uniform(-1, 1, (dim, dim)) * 1e-2 * rng.choice([1.0, 10.0]) * amp
     c0 = np.zeros(3)
-    c0[:dim] = rng.uniform(-1, 1, dim) * 1e-2 * amp
+    # (a rigid translation of the size of the strain times the size of the part: a translation many orders of magnitude larger than
+    # G.X on a micrometre part would only test the cancellation of its round-off in the reported strains)
+    c0[:dim] = rng.uniform(-1, 1, dim) * 1e-2 * amp * float(case.get("scale", 1.0))
     U = X @ G.T + c0  # (Nn, 3)
     u_lin = U[:, :dim].ravel()
     names = ["x", "y", "z"][:dim]
